@@ -4,11 +4,14 @@ import (
 	"bytes"
 	"encoding/json"
 	"encoding/xml"
+	"errors"
 	"fmt"
+	"io"
 	"math"
 	"net/http"
 	"net/http/httptest"
 	"strings"
+	"testing/iotest"
 
 	"github.com/gookit/rux"
 	"github.com/gookit/rux/pkg/render"
@@ -175,6 +178,39 @@ func c19Run(c c19Case, st *fw.Stats) []fw.Viol {
 							}
 						})
 						check(fmt.Sprintf("%s(%d, %q) preset Content-Type %q", c.Helper, status, s, preset), w, pv, status, ct, func(b []byte) bool { return string(b) == s })
+					}
+				}
+				if c.Helper == "Stream" {
+					// reader shapes: data together with EOF, one byte at a time, half reads, more than one buffer, a failing reader
+					big := strings.Repeat("0123456789abcdef", 1300) + "tail"
+					for _, body := range []string{"", "x", "stream body é", big} {
+						for name, mk := range map[string]func(string) io.Reader{
+							"data+EOF":    func(b string) io.Reader { return iotest.DataErrReader(strings.NewReader(b)) },
+							"one-byte":    func(b string) io.Reader { return iotest.OneByteReader(strings.NewReader(b)) },
+							"half":        func(b string) io.Reader { return iotest.HalfReader(strings.NewReader(b)) },
+							"no-WriterTo": func(b string) io.Reader { return struct{ io.Reader }{strings.NewReader(b)} },
+							"data+EOF no-WriterTo": func(b string) io.Reader {
+								return iotest.DataErrReader(struct{ io.Reader }{strings.NewReader(b)})
+							},
+						} {
+							body, status, mk := body, status, mk
+							w, errs, pv := c19Serve("", func(ctx *rux.Context) { ctx.Stream(status, "app/stream", mk(body)) })
+							what := fmt.Sprintf("Stream(%d, %s reader over %d bytes)", status, name, len(body))
+							check(what, w, pv, status, "app/stream", func(b []byte) bool { return string(b) == body })
+							if len(errs) != 0 {
+								add("helper:unexpected-error", fmt.Sprintf("%s recorded errors %v", what, errs))
+							}
+						}
+					}
+					status := status
+					w, errs, pv := c19Serve("", func(ctx *rux.Context) {
+						ctx.Stream(status, "app/stream", io.MultiReader(strings.NewReader("partial"), iotest.ErrReader(errors.New("read failed"))))
+					})
+					st.Evals++
+					if pv != nil {
+						add("helper:panic-on-unencodable", fmt.Sprintf("Stream(%d, failing reader) panicked: %v", status, pv))
+					} else if len(errs) == 0 {
+						add("helper:no-error-on-unencodable", fmt.Sprintf("Stream(%d, failing reader): the read error is not in the context's error list (body %q)", status, trunc(w.Body.String())))
 					}
 				}
 			case "JSON", "JSONP", "XML":
